@@ -380,10 +380,25 @@ pub fn gen_program(rng: &mut Rng, cfg: &GenCfg) -> Program {
     }
     let span_sites: Vec<usize> = sites.iter().enumerate().filter(|(_, s)| s.is_span).map(|(k, _)| k).collect();
     let event_sites: Vec<usize> = sites.iter().enumerate().filter(|(_, s)| !s.is_span).map(|(k, _)| k).collect();
+    let ops = gen_ops(rng, cfg, &sites, &span_sites, &event_sites, 0, 0);
+    Program { sites, ops, malformed: false }
+}
+
+/// Operations of one thread of a multi-threaded run: its own call sites are `sites[base..base+3]`
+/// (two span sites, one event site); handles `0..n_shared` are the shared spans (of site 0),
+/// which it may use (enter, record, explicit parent, follows-from) but never drops.
+pub fn gen_thread_program(rng: &mut Rng, cfg: &GenCfg, sites: &[Site], base: usize, n_shared: usize) -> Vec<POp> {
+    gen_ops(rng, cfg, sites, &[base, base + 1], &[base + 2], n_shared, 0)
+}
+
+fn gen_ops(rng: &mut Rng, cfg: &GenCfg, sites: &[Site], span_sites: &[usize], event_sites: &[usize], n_shared: usize, shared_site: usize) -> Vec<POp> {
+    let sites = sites.to_vec();
+    let span_sites = span_sites.to_vec();
+    let event_sites = event_sites.to_vec();
 
     let mut ops = vec![];
-    let mut handles: Vec<H> = vec![];
-    let mut span_site: Vec<usize> = vec![]; // per span number
+    let mut handles: Vec<H> = (0..n_shared).map(|i| H { span: i, live: true }).collect();
+    let mut span_site: Vec<usize> = vec![shared_site; n_shared]; // per span number
     let mut entered: Vec<usize> = vec![]; // span numbers, in enter order (with repeats)
     let n = rng.range(1, cfg.max_ops);
     let parent = |rng: &mut Rng, handles: &Vec<H>, roots: bool| -> PParent {
@@ -426,7 +441,7 @@ pub fn gen_program(rng: &mut Rng, cfg: &GenCfg) -> Program {
                 let s = *rng.pick(&live);
                 let span = handles[s].span;
                 let others = handles.iter().enumerate().filter(|(i, h)| *i != s && h.live && h.span == span).count();
-                if others > 0 || !entered.contains(&span) {
+                if s >= n_shared && (others > 0 || !entered.contains(&span)) {
                     ops.push(POp::Drp(s));
                     handles[s].live = false;
                 }
@@ -455,12 +470,12 @@ pub fn gen_program(rng: &mut Rng, cfg: &GenCfg) -> Program {
             let s = handles.iter().position(|h| h.live && h.span == span).unwrap();
             ops.push(POp::Ext(s));
         }
-        for s in 0..handles.len() {
+        for s in n_shared..handles.len() {
             if handles[s].live {
                 ops.push(POp::Drp(s));
                 handles[s].live = false;
             }
         }
     }
-    Program { sites, ops, malformed: false }
+    ops
 }
